@@ -313,6 +313,9 @@ def run_shard(spec, acc):
     from .. import runner
     dump_dir = os.path.join(runner.SCRATCH, f"c17-dump-{os.getpid()}")
     decC = claimed_decoder(sources, dump_to_file=os.path.join(dump_dir, "dump.jsonl"), dump_pgns=[d.pgn for k, d in enumerate(defs) if k % 2 == 0])
+    filtered_defs = [d for k, d in enumerate(defs) if k % 3 == 0 and any(f.pk for f in d.fields) and d.fixed_layout]
+    filtered_ids = {d.id for d in filtered_defs}
+    decF = claimed_decoder(sources, exclude_pgns=[d.id for d in filtered_defs]) if filtered_defs else None
     by_key = {}
     by_hash = {}
     cross = []
@@ -398,6 +401,19 @@ def run_shard(spec, acc):
             observe(decA, d, p0, nb, src=77, dst=17, prio=0, tag="other-destination")
             observe(decB, d, p0, nb, tag="unit-preferences")
             observe(decC, d, p0, nb, tag="dumping-decoder")
+            # a decoder whose id filter drops some definitions of this shard: right before this message it is given one of those
+            # (a frame with key fields of its own, dropped by the filter); what it computes for THIS message is unchanged
+            if filtered_defs and d.id not in filtered_ids:
+                fd_ = filtered_defs[acc.evaluations % len(filtered_defs)]
+                pf_ = dbx.pack(fd_, gen.base_raws(fd_, rng, dbx))
+                nbf_ = fd_.length if fd_.length is not None else (fd_.total_bits() + 7) // 8
+                try:
+                    rf_ = decF.decode_basic_string(wire.plain_line(3, fd_.pgn, 1, 255, pf_.to_bytes(nbf_, "little")), already_combined=True)
+                except Exception:  # noqa: BLE001
+                    rf_ = None
+                if rf_ is None:
+                    acc.count("frames_dropped_by_id_filter_before_a_hashed_message")
+                observe(decF, d, p0, nb, tag="after-a-frame-dropped-by-the-id-filter")
             observe(claimed_decoder([1]), d, p0, nb, tag="fresh-decoder") if fam == 0 else None
             # one key field changed: must land in another class
             for f in keys:
